@@ -86,6 +86,16 @@ def model_check(module, cfg_name, workers=8, timeout=3600, env=None, heap="6g", 
     return res
 
 
+def expect_violation(module, cfg_name, invariant=None, workers=4, timeout=900):
+    """Sensitivity self-test: a deliberately wrong design must be refuted by TLC."""
+    res = tlc(module, os.path.join(SPEC, cfg_name), workers=workers, timeout=timeout, tag=cfg_name)
+    inv = res["invariant_violated"]
+    if not inv or (invariant and invariant not in inv):
+        raise TLCError("self-test %s/%s: expected a counterexample, TLC said:\n%s"
+                       % (module, cfg_name, res["stdout"][-1500:]))
+    return res
+
+
 def model_check_many(jobs, parallel=4):
     """jobs: list of (module, cfg_name, workers). Run concurrently; returns list of results."""
     with ThreadPoolExecutor(max_workers=parallel) as ex:
